@@ -57,12 +57,19 @@ def _partition_job(job):
     return [(fn, repr(shape), r.kind, str(r.detail), r.result) for r in res]
 
 
-def _prop_job(shape):
+def _prop_job(job):
+    """propagate_toplevel under both substituter classes an environment may be configured with, with and without the
+    final simplification"""
+    shape, subst, simp = job if isinstance(job, tuple) else (job, None, True)
+
     def call(w, it, f):
+        if subst:
+            w.env.attrs["_substituter"] = w.new_walker(subst, w.env)
         g = it.module_global(w.repo.modules["pysmt.rewritings"], "propagate_toplevel")
-        return it.call(g, [f], {"env": w.env})
-    res = proc.run_proc(shape, call, world_cls=proc.TypedWorld)
-    return [("propagate_toplevel", repr(shape), r.kind, str(r.detail), r.result) for r in res]
+        return it.call(g, [f], {"env": w.env, "do_simplify": simp})
+    res = proc.run_proc(shape, call, world_cls=proc.TypedWorld, services="full" if subst else True)
+    tag = "propagate_toplevel" if not subst else "propagate_toplevel [%s%s]" % (subst.split(".")[-1], "" if simp else ", do_simplify=False")
+    return [("propagate_toplevel", "%r%s" % (shape, tag[18:]), r.kind, str(r.detail), r.result) for r in res]
 
 
 def _dist_job(shape):
@@ -112,6 +119,23 @@ def prop_shapes():
           ("And", ("Equals", y, x), ("Equals", five, y), ("Or", a, ("LT", x, three))),
           ("And", a, ("Or", ("Equals", x, five), ("LT", x, three))), ("Equals", x, five),
           ("And", ("Equals", x, y), ("Equals", z, three), ("Equals", y, z), ("LT", ("Plus", x, y), z))]
+    return [Shape(t) for t in sh]
+
+
+def prop_shapes_q():
+    """the propagated variable is bound again by a quantifier of the same formula; quantifier alternations next to a
+    definition (only the free occurrences are replaced; the binders stay binders)"""
+    B2 = ("BV", 2)
+    x, y, z = S("x", B2), S("y", B2), S("z", B2)
+    one, two = ("lit", 1, B2), ("lit", 2, B2)
+    qx, qy = [("x", B2)], [("y", B2)]
+    sh = [("And", ("Equals", x, one), ("exists", qx, ("BVULT", two, x))),
+          ("And", ("Equals", x, one), ("forall", qx, ("BVULE", x, y)), ("BVULT", x, two)),
+          ("And", ("Equals", x, y), ("exists", qx, ("Equals", x, z)), ("BVULT", y, two)),
+          ("And", ("Equals", y, one), ("exists", qx, ("forall", qy, ("BVULE", x, y))), ("BVULT", y, x)),
+          ("And", ("Equals", z, one), ("forall", qx, ("exists", qy, ("Equals", x, y)))),
+          ("And", ("Equals", z, one), ("exists", qx, ("forall", qy, ("Or", ("Equals", x, y), ("Equals", y, z))))),
+          ("And", ("Equals", z, x), ("forall", qx, ("Or", ("Equals", z, one), ("exists", [("z", B2)], ("BVULT", x, z)))))]
     return [Shape(t) for t in sh]
 
 
@@ -168,6 +192,9 @@ def run(ctx):
         pj += [("conjunctive_partition", Shape(t)), ("disjunctive_partition", Shape(t))]
     outs += parallel_map(_partition_job, pj)
     outs += parallel_map(_prop_job, prop_shapes())
+    outs += parallel_map(_prop_job, [(sh, cls, simp) for sh in prop_shapes_q() + prop_shapes()[:4]
+                                     for cls in ("pysmt.substituter.MGSubstituter", "pysmt.substituter.MSSubstituter")
+                                     for simp in (True, False)])
     outs += parallel_map(_dist_job, dist_shapes())
     where = {"nnf": "pysmt.rewritings.NNFizer", "aig": "pysmt.rewritings.AIGer", "prenex": "pysmt.rewritings.PrenexNormalizer",
              "shannon": PROCS["shannon"][0], "selfsub": PROCS["selfsub"][0],
